@@ -2,6 +2,7 @@ package rules
 
 import (
 	"fmt"
+	"go/token"
 	"go/types"
 	"strings"
 
@@ -30,6 +31,8 @@ func runC20(c *Ctx) {
 	// the poisoned deadline ends the handshake only if readLine hands the read error back
 	readLineRules(c, "C20")
 	c20NoEarlyIO(c)
+	// the debug dialer's sniffing reader must let the connection's own error through
+	c20PrefetchKeepsSource(c, "C20")
 }
 
 func c20Dial(c *Ctx) {
@@ -754,4 +757,115 @@ func connArg(args []fold.Val) string {
 		}
 	}
 	return "?"
+}
+
+// variadicElems returns the values stored into the array behind a variadic argument slice.
+func variadicElems(s ssa.Value) []ssa.Value {
+	sl, ok := s.(*ssa.Slice)
+	if !ok {
+		return nil
+	}
+	al, ok := sl.X.(*ssa.Alloc)
+	if !ok || al.Referrers() == nil {
+		return nil
+	}
+	byIdx := map[int64]ssa.Value{}
+	max := int64(-1)
+	for _, r := range *al.Referrers() {
+		ia, ok := r.(*ssa.IndexAddr)
+		if !ok || ia.Referrers() == nil {
+			continue
+		}
+		k, ok := ia.Index.(*ssa.Const)
+		if !ok {
+			return nil
+		}
+		for _, rr := range *ia.Referrers() {
+			if st, ok := rr.(*ssa.Store); ok && st.Addr == ssa.Value(ia) {
+				byIdx[k.Int64()] = st.Val
+				if k.Int64() > max {
+					max = k.Int64()
+				}
+			}
+		}
+	}
+	out := make([]ssa.Value, max+1)
+	for i := range out {
+		out[i] = byIdx[int64(i)]
+	}
+	return out
+}
+
+// c20PrefetchKeepsSource: the reader DebugDialer puts between the handshake and the connection
+// (when OnResponse is set) replays what it prefetched and then goes on reading the connection -
+// always, also when the prefetch failed. The error the handshake must see is the connection's
+// own: the context watcher interrupts a blocked handshake by poisoning the connection's
+// deadline and recognises the outcome by that timeout error; a reader that answers io.EOF for
+// the connection turns a cancelled Dial into a plain EOF (and a cut response into a clean end).
+func c20PrefetchKeepsSource(c *Ctx, prop string) {
+	rule := prop + ".prefetch-keeps-source"
+	c.R.Rule(rule, 1, "prefetchResponseReader.Read: whatever it installs as its reader ends in the connection it was given (io.MultiReader(..., r.source)) on every path")
+	f := c.method(rule, wsutil, "prefetchResponseReader", "Read")
+	if f == nil {
+		return
+	}
+	recv := f.Params[0]
+	fieldOf := func(v ssa.Value) string {
+		fa, ok := v.(*ssa.FieldAddr)
+		if !ok || fa.X != ssa.Value(recv) {
+			return ""
+		}
+		st, ok := fa.X.Type().Underlying().(*types.Pointer).Elem().Underlying().(*types.Struct)
+		if !ok {
+			return ""
+		}
+		return st.Field(fa.Field).Name()
+	}
+	var endsInSource func(v ssa.Value, depth int) bool
+	endsInSource = func(v ssa.Value, depth int) bool {
+		if v == nil || depth > 8 {
+			return false
+		}
+		switch x := v.(type) {
+		case *ssa.MakeInterface:
+			return endsInSource(x.X, depth+1)
+		case *ssa.ChangeInterface:
+			return endsInSource(x.X, depth+1)
+		case *ssa.Phi:
+			for _, e := range x.Edges {
+				if !endsInSource(e, depth+1) {
+					return false
+				}
+			}
+			return len(x.Edges) > 0
+		case *ssa.UnOp:
+			return x.Op == token.MUL && fieldOf(x.X) == "source"
+		case *ssa.Call:
+			if cal := x.Call.StaticCallee(); cal != nil && cal.String() == "io.MultiReader" && len(x.Call.Args) == 1 {
+				el := variadicElems(x.Call.Args[0])
+				return len(el) > 0 && endsInSource(el[len(el)-1], depth+1)
+			}
+		}
+		return false
+	}
+	stores := 0
+	var problems []string
+	for _, b := range f.Blocks {
+		for _, in := range b.Instrs {
+			st, ok := in.(*ssa.Store)
+			if !ok || fieldOf(st.Addr) != "reader" {
+				continue
+			}
+			stores++
+			if !endsInSource(st.Val, 0) {
+				problems = append(problems, "the reader installed at "+c.P.Pos(st.Pos())+" does not end in r.source: after the prefetched bytes the handshake is told io.EOF instead of what the connection says (a poisoned deadline, a reset, more data)")
+			}
+		}
+	}
+	if stores == 0 {
+		c.R.Unknown(rule, rule+"/Read", c.P.FuncPos(f), "prefetchResponseReader.Read no longer stores into its reader field: how the prefetched bytes and the connection are chained is not recognisable")
+		return
+	}
+	c.R.Sites += stores
+	c.verdict(rule, rule+"/Read", c.P.FuncPos(f), uniq(problems), fmt.Sprintf("%d store(s) into r.reader, each an io.MultiReader ending in r.source", stores))
 }
